@@ -3,6 +3,8 @@ package props
 import (
 	"encoding/json"
 	"runtime"
+
+	"verif/harness/internal/tlc"
 	"sync"
 )
 
@@ -34,3 +36,7 @@ func parallel(n int, f func(i int)) {
 }
 
 func jsonUnmarshal(s string, v any) error { return json.Unmarshal([]byte(s), v) }
+
+func tlcRun(module, cfg string) (*tlc.Result, error) {
+	return tlc.Run(tlc.Opts{Module: module, Config: cfg, Workers: 4})
+}
